@@ -1,7 +1,7 @@
 (* C17/Examples.v — non-vacuity of every hypothesis used in Properties.v, and regression values of the model. *)
 From Coq Require Import ZArith QArith Qround List Bool Lia Permutation Sorted.
 From Abacus.Common Require Import Arr Par.
-From Abacus.C17 Require Import Gen Model Spec Lib Mat Blocks Proofs ProofsPar ProofsSort ProofsTop Run.
+From Abacus.C17 Require Import Gen Model Spec Lib Mat Blocks Proofs ProofsPar ProofsSort ProofsTop Run ArgsortIns.
 Import ListNotations.
 Local Open Scope Z_scope.
 
@@ -78,6 +78,34 @@ Example schedule_value :
   map (fst (Par.run ex_schedule (init ex_threads (fun _ => VI 0) (VI 0)))) [0; 1; 2; 3; 4; 5; 6; 7; 8; 9]
   = [VP (Some 0); VP (Some 0); VP (Some 1); VP (Some 3); VP (Some 3);
      VW (Some 11); VW (Some 14); VW (Some 13); VW (Some 10); VW (Some 12)].
+Proof. vm_compute. reflexivity. Qed.
+
+(* the hypotheses of sorted_option: the argsort of the executable model (Run.argsort_ins, an insertion sort of the indices)
+   satisfies both argsort hypotheses for EVERY list (proved in ArgsortIns.v), with cle = Qle (as Qle_bool); and the
+   preconditions hold for five rows of rationals keyed by the generated key expression of column 1 (two stripes, three
+   threads, weights).  Stripe 0 holds rows 1 and 3 (y = 1/4, 0): sorting swaps them; stripe 1 holds rows 0, 2, 4 (y = 1/2, 1/2, 1). *)
+Definition ex_rows : list (list Q) :=
+  [[0; 1 # 2; 1]; [1; 1 # 4; 3 # 4]; [1 # 2; 1 # 2; 1 # 2]; [999 # 1000; 0; 0]; [1 # 4; 1; 0]]%Q.
+Definition ex_rw : list Q := [10; 11; 12; 13; 14]%Q.
+
+Example sorted_option_nonvacuous :
+  preconditions (rowkey 2 1 1) 3 2 [0; 1; 3; 5] ex_rows (Some ex_rw) [7; 7; 7; 7; 7] (repeat [] 5) (repeat 0%Q 5) /\
+  (forall l : list Q, Permutation (argsort_ins l) (seq 0 (length l))) /\
+  (forall l : list Q, Sorted (fun a b => Qle_bool a b = true) (gather l (argsort_ins l))).
+Proof.
+  split; [|split; [exact argsort_ins_perm|exact argsort_ins_sorted]].
+  split; [lia|]. split; [lia|]. split; [exact boundaries_nonvacuous|]. split.
+  - intros x Hx. unfold ex_rows in Hx. cbn [In] in Hx.
+    destruct Hx as [<-|[<-|[<-|[<-|[<-|[]]]]]]; vm_compute; split; try discriminate; reflexivity.
+  - split; [reflexivity|]. split; [reflexivity|]. intros w E. inversion E; subst. split; reflexivity.
+Qed.
+
+(* ... and the model's value on that input (sort = true): stripe 0 reordered by y, weights moved with their rows *)
+Example sorted_option_value :
+  partition_model (list Q) Q Q (rowkey 2 1 1) (rowcv 1) argsort_ins 3 2 [0; 1; 3; 5] ex_rows (Some ex_rw) true
+    [7; 7; 7; 7; 7] (repeat [] 5) (repeat 0%Q 5)
+  = Ok ([[999 # 1000; 0; 0]; [1; 1 # 4; 3 # 4]; [0; 1 # 2; 1]; [1 # 2; 1 # 2; 1 # 2]; [1 # 4; 1; 0]]%Q,
+        [0; 2; 5], Some [13; 11; 10; 12; 14]%Q).
 Proof. vm_compute. reflexivity. Qed.
 
 (* the argsort hypotheses of sort_step_on_a_stripe_partial, for the insertion argsort of Run.v on a concrete stripe *)
